@@ -34,8 +34,9 @@ TRANSLATE_EXEMPT = {'Synset.translate': 'translation looks up a different target
                                         '(lexicon/lang arguments), guarded by the ILI (C10-R3)'}
 # calls with an omitted scope that are row-keyed / lookup-only
 OMITTED_OK = {
-    ('find_ilis', 'id'): 'lookup of the shared ILI inventory by id (ilis is not lexicon content)',
-    ('find_proposed_ilis', 'synset_rowid'): 'row-keyed by the rowid of a synset obtained from a scoped query',
+    # (query function, keyword that must be given, caller module or None for any)
+    ('find_ilis', 'id', '_core'): 'Synset.ili: lookup of the shared ILI inventory by the id the synset carries',
+    ('find_proposed_ilis', 'synset_rowid', None): 'row-keyed by the rowid of a synset obtained from a scoped query',
 }
 
 
@@ -152,8 +153,8 @@ def r2_callsite_provenance(ctx, res):
             if tags == {'omitted'}:
                 given = {kw.arg for kw in call.keywords if kw.arg}
                 why = None
-                for (fname, kwname), reason in OMITTED_OK.items():
-                    if qf.name == fname and kwname in given:
+                for (fname, kwname, cmod), reason in OMITTED_OK.items():
+                    if qf.name == fname and kwname in given and cmod in (None, caller.module.short):
                         why = reason
                 if why is None:
                     res.find(key, loc, f'{caller.qualname} calls scoped query {qf.name} without a lexicon scope '
@@ -372,10 +373,20 @@ def _iter_is_scoped(ctx, func, it, scoped_names, depth):
     return False, f'`{norm(it)[:50]}`'
 
 
+def r6_scope_recomputed(ctx, res):
+    """the scope of a query is recomputed from the database on every call: no memoisation / module-level cache in the query
+    layer and the entity classes (a cached extension chain or lexicon list survives remove()/add() and rowid reuse)."""
+    from .c16 import hidden_state_subset
+    n = hidden_state_subset(ctx, res, ('_queries', '_core', '_db'), 'scope-fresh')
+    if n < 150:
+        raise AnalysisError(f'only {n} functions of the query layer examined for hidden state')
+
+
 RULES = [
     ('C04-R1', r1_sql_scoping, 40),
     ('C04-R2', r2_callsite_provenance, 30),
     ('C04-R3', r3_navigation, 30),
     ('C04-R4', r4_default_formula, 3),
     ('C04-R5', r5_constructor_provenance, 8),
+    ('C04-R6', r6_scope_recomputed, 150),
 ]
